@@ -228,7 +228,7 @@ def run(ctx):
         # (cfg, tag, constants, must_take, extra_random, payload)
         ("SP_all.cfg", "all", {"MaxObj": 2, "MaxH": 5}, full, 100 if q else 1000, "int"),
         ("SP_self.cfg", "self", {"MaxH": 3 if q else 4}, full + SELF_OPS, 100 if q else 1000, "int"),
-        ("SP_typed.cfg", "typed", {"MaxSteps": 4 if q else 5}, full + ["Read"], 50 if q else 500, "int"),
+        ("SP_typed.cfg", "typed", {"MaxSteps": 4}, full + ["Read"], 50 if q else 500, "int"),
         ("SP_typed.cfg", "typedT", {"MaxSteps": 4 if q else 5}, full + ["Read"], 50 if q else 500, "tracked"),
         ("SP_grow.cfg", "grow", {"MaxSteps": 6 if q else 7}, grow + ["MoveAssign"], 100 if q else 1000, "int"),
     ]
